@@ -55,6 +55,10 @@ FIXES = [
   "crash while a TA child was being deleted, after its revocation request was queued at the TA proxy: the restarted child asked for a certificate for the same key, the proxy failed every such request with 'Response does not match request type' because of the open revocation response, and the child's parent synchronisation never succeeded again (seed 1000000329, cuts 3/6/9 of delete_ca)"),
  ("do not name a URI twice in an RRDP delta when an object moves between publishers", "C10", "rrdp_client",
   "(also C11) publisher 'a' removed (objects withdrawn) and publisher 'a/b' added and publishing rsync://.../a/b/m.mft before the next RRDP update: the delta held a publish without hash and a withdraw for the same URI, which a client holding the object cannot apply (seed 1000000905)"),
+ ("list the objects the repository holds in the status also when a reply was lost", "C19", "published_list_differs",
+  "the list of published objects in a CA's repository status was only updated from acknowledged deltas: when the repository applied a delta but the reply was lost (two-instance runs over the faulty network), the next synchronisation found nothing to send, reported success and the status kept the list from before the lost delta; a publisher removed and re-created at the server led to every object being listed twice"),
+ ("store a re-scheduled task before removing the entry it replaces", "C09", "pending_rrdp_update_cancelled",
+  "(found by the C10 failing-write runs) Queue::schedule_task deleted the pending entry of a task before storing its replacement; when that store failed (injected I/O error at kv store of pending/<ts>-update_rrdp_if_needed while publisher 'bob' sent a delta) the RRDP update already queued for publisher 'Bob's acknowledged delta was gone and the served RRDP snapshot and rsync tree never got that object (profile c10fail, seed 1010000014)"),
 
 ]
 
